@@ -21,6 +21,7 @@ type clientHello struct {
 	ALPNProtos []string
 
 	hasECHOuterExtensions bool
+	noExtensions          bool
 	tls13                 bool
 	echExt                *echExt
 }
@@ -95,6 +96,9 @@ func (c *clientHello) marshal(aad bool) ([]byte, error) {
 				b.AddBytes(c.LegacyCompressionMethods)
 			})
 
+			if c.noExtensions && len(c.Extensions) == 0 {
+				return
+			}
 			b.AddUint16LengthPrefixed(func(b *cryptobyte.Builder) {
 				for _, ext := range c.Extensions {
 					b.AddUint16(ext.Type)
@@ -181,8 +185,12 @@ func parseClientHello(buf []byte) (*clientHello, error) {
 	//	return nil, ErrIllegalParameter
 	//}
 
+	// Before TLS 1.3, the extensions block was optional (RFC 5246 section
+	// 7.4.1.2).
 	var extensions cryptobyte.String
-	if !s.ReadUint16LengthPrefixed(&extensions) {
+	if s.Empty() {
+		hello.noExtensions = true
+	} else if !s.ReadUint16LengthPrefixed(&extensions) {
 		return nil, ErrDecodeError
 	}
 
